@@ -24,6 +24,14 @@ main (uniform / prioritised) buffers that wrap early.  `n_step_memory.add` is re
 and every `agent.learn(experiences, n_experiences)` call is inspected row by row: same (obs, action)
 in row i of both batches, 1-step row = raw stream transition, n-step row = legal fusion from its
 start; the final storages are compared with the Lean model fed with the recorded stream.
+
+Consumer suite: the real 1-step (uniform / prioritised) and n-step buffers are filled from scripted
+streams with episode ends in every slot, sampled through `Sampler` as the loop does, and handed to
+the REAL `RainbowDQN.learn` (per on/off, combined_reward on/off, n >= 2) of identically seeded
+agents.  Metamorphic relations on what learn() returns and does (priorities = per-sample losses,
+loss, updated weights): streams that differ only in what FOLLOWS a terminal step give identical
+results; a changed pre-terminal reward / a changed next_obs of a non-terminal last step changes
+exactly the samples whose summed steps contain it (sensitivity + locality).
 """
 from __future__ import annotations
 
@@ -792,6 +800,382 @@ def loop_suite(chk: Check) -> None:
     chk.suite("train-loop", runs, ndiff)
 
 
+# ----------------------------------------------------------------------------- consumer suite
+# The n-step record is only as good as its consumer.  This suite fills the real 1-step (uniform / prioritised)
+# and n-step buffers from a scripted stream, samples them the way train_off_policy does and calls the REAL
+# `RainbowDQN.learn` (per on/off, combined_reward on/off, n >= 2) on identically seeded agents for variants
+# of the stream, and checks black-box (metamorphic) relations on what learn() returns and does:
+#   A vs B  B differs from A ONLY in what follows a terminal step: the observation returned after every
+#           terminal step (next_obs of a done cell) and every row behind the last terminal row of the
+#           stream.  Per-sample losses / priorities, the loss and the updated weights must be identical.
+#   A vs C  C differs in one PRE-terminal reward inside a window: exactly the samples whose summed rows
+#           contain that step must change (sensitivity + locality: no other sample may change).
+#   A vs D  D differs in the next_obs of the last summed step of a window that did NOT end: the samples
+#           that bootstrap from it must change, no other.
+# Stream layout: rows 0..t* (episode ends anywhere, row t*-1 free of ends, row t* terminal in >= 1 env),
+# then n-1 rows that belong to the next episode(s); so every stored record starts at or before t*.
+
+CONS_TOL = 5e-5        # float32 noise (the masked bootstrap sums a distribution to 1 +- 1e-7)
+CONS_MIN = 2e-4        # a change that counts as "the output depends on it"
+CONS_SAME = 2e-6       # outputs of identical computations are bitwise equal; anything above this is a dependence
+CONS_PERTURB = 0.15    # seeded perturbation of the freshly initialised networks (see make_agent)
+CONS_CLAMP = 1e-3      # DuelingDistributionalMLP clamps the softmax output at 1e-3: where that is active the
+                       # target distribution no longer sums to exactly 1 and even a masked bootstrap leaks up to
+                       # num_atoms * 1e-3 (relative) of the post-terminal observation into the loss
+
+
+def consumer_config(rng: random.Random, per: bool, combined: bool) -> dict:
+    n = rng.choice([2, 3, 3, 4])
+    m = rng.choice([1, 2, 2, 3])
+    tstar = rng.randint(max(2, n - 1), n + 5)
+    p = rng.choice([0.15, 0.3, 0.5])
+    vals = [[-1, 1], [-1, 2], [0, 1], [1, 2], [1, 1], [3, 4]]
+    steps = [[[rng.choice(vals), int(rng.random() < p)] for _ in range(m)] for _ in range(tstar + n)]
+    for e in range(m):
+        steps[tstar - 1][e][1] = 0                     # the step before t* ends nothing …
+        steps[tstar][e][1] = int(rng.random() < 0.5)
+    steps[tstar][0][1] = 1                             # … and env 0 ends at t*
+    return {"kind": "consumer", "per": per, "combined": combined, "n": n, "m": m, "tstar": tstar,
+            "steps": steps, "cap_extra": rng.choice([0, 0, 1, 5]), "seed": rng.randrange(1 << 30)}
+
+
+def _cons_tables(cfg, variant: str):
+    """observations / actions / rewards / dones of the stream for one variant (arrays [T, m, …])"""
+    m, tstar, steps = cfg["m"], cfg["tstar"], cfg["steps"]
+    T = len(steps)
+    g = np.random.default_rng(cfg["seed"])
+    q = lambda a: np.round(a * 8) / 8
+    obs = q(g.normal(size=(T, m, 3))).astype(np.float32)
+    nxt = q(g.normal(size=(T, m, 3))).astype(np.float32)
+    for t in range(T):
+        for e in range(m):
+            obs[t, e, 0] = (t * m + e) / 8.0            # provenance: start position of the record
+    act = g.integers(0, 2, size=(T, m))
+    rew = np.array([[float(Fraction(*steps[t][e][0])) for e in range(m)] for t in range(T)])
+    done = np.array([[bool(steps[t][e][1]) for e in range(m)] for t in range(T)])
+    note = {}
+    if variant == "B":
+        h = np.random.default_rng(cfg["seed"] + 1)
+        alt = q(3.0 * h.normal(size=(T, m, 3))).astype(np.float32)
+        for t in range(tstar + 1):
+            for e in range(m):
+                if done[t, e]:
+                    nxt[t, e] = alt[t, e]               # the observation that follows a terminal step
+        for t in range(tstar + 1, T):                   # the next episode(s)
+            obs[t] = q(3.0 * h.normal(size=(m, 3)))
+            nxt[t] = alt[t]
+            act[t] = h.integers(0, 2, size=m)
+            rew[t] = h.integers(-8, 9, size=m) / 4.0
+            done[t] = h.random(m) < 0.5
+    elif variant == "C":
+        rew[tstar, 0] += 1.0                            # pre-terminal: the terminal step's own reward
+        note = {"changed": [tstar, 0]}
+    elif variant == "D":
+        cell = _cons_boot_cell(cfg)
+        if cell is None:
+            return None
+        nxt[cell[0], cell[1]] = -3.0 * nxt[cell[0], cell[1]] + 1.0
+        note = {"changed": list(cell)}
+    return obs, nxt, act, rew, done, note
+
+
+def _cons_cut(cfg, s: int) -> int:
+    """number of summed rows of the window starting at row s"""
+    steps, n = cfg["steps"], cfg["n"]
+    for k in range(1, n + 1):
+        if any(d for _, d in steps[s + k - 1]):
+            return k
+    return n
+
+
+def _cons_boot_cell(cfg):
+    """(t, e): last summed step of some stored window that did not end there"""
+    for s in range(cfg["tstar"] + 1):
+        last = s + _cons_cut(cfg, s) - 1
+        for e in range(cfg["m"]):
+            if not cfg["steps"][last][e][1] and last <= cfg["tstar"]:
+                return (last, e)
+    return None
+
+
+def _cons_run(cfg, variant: str, flatten: bool, single_rows: bool = False, learn_patch=None):
+    """fill both real buffers with the variant's stream, sample like train_off_policy, call the real learn()"""
+    from agilerl.algorithms.dqn_rainbow import RainbowDQN
+    from agilerl.components.data import Transition
+    from agilerl.components.replay_buffer import (MultiStepReplayBuffer, PrioritizedReplayBuffer,
+                                                  ReplayBuffer)
+    from agilerl.components.sampler import Sampler
+    from gymnasium import spaces
+    tab = _cons_tables(cfg, variant)
+    if tab is None:
+        return None
+    obs, nxt, act, rew, done, note = tab
+    n, m, per = cfg["n"], cfg["m"], cfg["per"]
+    K = cfg["tstar"] + 1
+    cap = K * m + cfg["cap_extra"]
+    gamma = 0.9
+    nb = MultiStepReplayBuffer(max_size=cap, n_step=n, gamma=gamma)
+    mb = PrioritizedReplayBuffer(max_size=cap, alpha=0.6) if per else ReplayBuffer(max_size=cap)
+    for t in range(len(cfg["steps"])):
+        td = Transition(obs=obs[t], action=act[t].astype(np.int64), reward=rew[t].astype(np.float64),
+                        next_obs=nxt[t], done=done[t]).to_tensordict()
+        td.batch_size = [m]
+        one = nb.add(td)
+        if one is not None:
+            mb.add(one)
+    B = len(mb)
+
+    def make_agent():
+        torch.manual_seed(cfg["seed"] % (1 << 31))
+        np.random.seed(cfg["seed"] % (1 << 31))
+        random.seed(cfg["seed"])
+        agent = RainbowDQN(spaces.Box(-20, 20, (3,), np.float32), spaces.Discrete(2),
+                           net_config={"encoder_config": {"hidden_size": [16]}, "head_config": {"hidden_size": [16]}},
+                           batch_size=B, lr=1e-2, learn_step=1, gamma=gamma, n_step=n, num_atoms=9, v_min=-6.0,
+                           v_max=6.0, combined_reward=cfg["combined"])
+        # Adam's step g/(|g|+eps) is not continuous at g = 0 for the default eps = 1e-8: rounding noise in a
+        # vanishing gradient could flip a whole step.  A larger eps makes the update Lipschitz in the gradient.
+        opt = agent.optimizer
+        for inner in (opt, getattr(opt, "optimizer", None)):
+            for grp in getattr(inner, "param_groups", []) or []:
+                grp["eps"] = 1e-3
+        # a freshly initialised Rainbow head is (almost) the uniform distribution whatever the observation; the
+        # relations need networks whose output depends on their input, as after some training: seeded perturbation
+        gen = torch.Generator().manual_seed(cfg["seed"] % (1 << 31) + 13)
+        with torch.no_grad():
+            for net in (agent.actor, agent.actor_target):
+                for prm in net.parameters():
+                    prm.add_(CONS_PERTURB * torch.randn(prm.shape, generator=gen))
+        if learn_patch is not None:
+            agent.learn = learn_patch(agent)
+        torch.manual_seed(cfg["seed"] % (1 << 31) + 5)
+        return agent
+    sampler, n_sampler = Sampler(memory=mb), Sampler(memory=nb)
+    torch.manual_seed(cfg["seed"] % (1 << 31) + 7)
+    exp = sampler.sample(B, 0.4) if per else sampler.sample(B, return_idx=True)
+    nexp = n_sampler.sample(exp["idxs"])
+    shape_as_sampled = list(nexp["reward"].shape)
+    if flatten:
+        nexp = nexp.reshape(exp["obs"].shape[0])
+    starts = [int(round(float(v) * 8)) for v in exp["obs"][:, 0].tolist()]
+    out = {"starts": starts, "idxs": [int(i) for i in exp["idxs"].reshape(-1).tolist()], "note": note,
+           "n_batch_shape": shape_as_sampled, "len": [len(nb), len(mb)]}
+    if single_rows:               # per-sample losses where learn() returns only the mean: one fresh agent per row
+        losses = []
+        for i in range(B):
+            l, *_ = make_agent().learn(exp[i:i + 1], n_experiences=nexp[i:i + 1], per=per)
+            losses.append(float(l))
+        out["row_losses"] = losses
+        return out
+    agent = make_agent()
+    with torch.no_grad():
+        nx = torch.cat([exp["next_obs"].reshape(-1, 3), nexp["next_obs"].reshape(-1, 3)])
+        dist = agent.actor_target(agent.preprocess_observation(nx), q=False)
+        out["clamp_active"] = bool((dist <= CONS_CLAMP * 1.001).any())
+    loss, idxs, prios = agent.learn(exp, n_experiences=nexp, per=per)
+    out["loss"] = float(loss)
+    out["prios"] = None if prios is None else [float(x) for x in np.asarray(prios).reshape(-1)]
+    out["weights"] = torch.cat([v.detach().reshape(-1).to(torch.float64) for net in (agent.actor, agent.actor_target)
+                                for v in net.state_dict().values()]).numpy()
+    return out
+
+
+def _close(a, b, rel: float = 1e-4) -> bool:
+    return abs(a - b) <= CONS_TOL + rel * max(abs(a), abs(b))
+
+
+def consumer_case(cfg, flatten: bool = False, learn_patch=None):
+    """returns (problems, facts)"""
+    problems, facts = [], {}
+    m, n, tstar, per = cfg["m"], cfg["n"], cfg["tstar"], cfg["per"]
+    A = _cons_run(cfg, "A", flatten, learn_patch=learn_patch)
+    B = _cons_run(cfg, "B", flatten, learn_patch=learn_patch)
+    C = _cons_run(cfg, "C", flatten, learn_patch=learn_patch)
+    D = _cons_run(cfg, "D", flatten, learn_patch=learn_patch)
+    facts.update(batch=len(A["starts"]), starts=A["starts"], n_batch_shape=A["n_batch_shape"],
+                 loss={k: v["loss"] for k, v in (("A", A), ("B", B), ("C", C)) if v},
+                 prios={k: v["prios"] for k, v in (("A", A), ("B", B), ("C", C), ("D", D)) if v and v["prios"]})
+    for name, V in (("B", B), ("C", C), ("D", D)):
+        if V is not None and (V["starts"] != A["starts"] or V["idxs"] != A["idxs"]):
+            problems.append(f"variant {name}: the sampled batch differs from variant A's although only rewards / "
+                            f"observations were varied ({V['idxs']} vs {A['idxs']})")
+            return problems, facts
+    where = lambda i: (A["starts"][i] // m, A["starts"][i] % m)      # (row, env) the sample starts from
+
+    def summed(i):
+        s, e = where(i)
+        return [(s + j, e) for j in range(_cons_cut(cfg, s))]
+
+    def wdiff(X):
+        return float(np.max(np.abs(X["weights"] - A["weights"])))
+    clamp = A["clamp_active"] or B["clamp_active"]
+    rel = 1.5 * 9 * CONS_CLAMP if clamp else 1e-4          # 9 atoms
+    wtol = 40 * CONS_TOL if clamp else CONS_TOL
+    facts["softmax_clamp_active"] = clamp
+    # --- A vs B: nothing that follows a terminal step may matter
+    what_b = ("two streams that differ only in what follows a terminal step (the observation returned after it, and "
+              "the next episode's transitions)")
+    if per:
+        bad = [i for i in range(len(A["prios"])) if not _close(A["prios"][i], B["prios"][i], rel)]
+        if bad:
+            i = bad[0]
+            s, e = where(i)
+            k = _cons_cut(cfg, s)
+            problems.append(
+                f"RainbowDQN.learn(per=True, combined_reward={cfg['combined']}, n_step={n}): {what_b} give different "
+                f"priorities for {len(bad)} of {len(A['prios'])} samples; first: the sample starting at (step {s}, env "
+                f"{e}) [1-step done={cfg['steps'][s][e][1]}, window ends after {k} steps with done="
+                f"{cfg['steps'][s + k - 1][e][1]}] has priority {A['prios'][i]:.6f} vs {B['prios'][i]:.6f}")
+    if not _close(A["loss"], B["loss"], rel) or wdiff(B) > wtol:
+        problems.append(f"RainbowDQN.learn(per={per}, combined_reward={cfg['combined']}, n_step={n}): {what_b} give loss "
+                        f"{A['loss']:.6f} vs {B['loss']:.6f} and updated weights that differ by {wdiff(B):.2e}")
+    if not per and not problems:
+        ra, rb = (_cons_run(cfg, v, flatten, single_rows=True, learn_patch=learn_patch) for v in ("A", "B"))
+        bad = [i for i in range(len(ra["row_losses"])) if not _close(ra["row_losses"][i], rb["row_losses"][i], rel)]
+        facts["row_losses"] = {"A": ra["row_losses"], "B": rb["row_losses"]}
+        if bad:
+            s, e = where(bad[0])
+            problems.append(f"RainbowDQN.learn(per=False, combined_reward={cfg['combined']}, n_step={n}) on single rows: "
+                            f"{what_b} give loss {ra['row_losses'][bad[0]]:.6f} vs {rb['row_losses'][bad[0]]:.6f} for "
+                            f"the sample starting at (step {s}, env {e})")
+    # --- A vs C / A vs D: sensitivity and locality
+    for name, V, what in (("C", C, "a reward"), ("D", D, "the next observation of a step that ends nothing")):
+        if V is None:
+            continue
+        cell = tuple(V["note"]["changed"])
+        if per:
+            if name == "C":
+                hit = [i for i in range(len(A["starts"])) if cell in summed(i)]
+            else:
+                hit = [i for i in range(len(A["starts"]))
+                       if summed(i)[-1] == cell or (cfg["combined"] and where(i) == cell)]
+            moved = [i for i in range(len(A["prios"])) if abs(A["prios"][i] - V["prios"][i]) > CONS_MIN]
+            still = [i for i in hit if abs(A["prios"][i] - V["prios"][i]) <= CONS_SAME]
+            stray = [i for i in range(len(A["prios"])) if i not in hit and not _close(A["prios"][i], V["prios"][i])]
+            facts[f"hit_{name}"] = {"cell": list(cell), "samples": hit, "moved": moved}
+            if stray:
+                s, e = where(stray[0])
+                problems.append(f"RainbowDQN.learn(per=True, combined_reward={cfg['combined']}, n_step={n}): changing "
+                                f"{what} at (step {cell[0]}, env {cell[1]}) changes the priority of {len(stray)} samples "
+                                f"whose own transitions do not contain that step; first: sample starting at (step {s}, "
+                                f"env {e}): {A['prios'][stray[0]]:.6f} -> {V['prios'][stray[0]]:.6f}")
+            if hit and still:
+                s, e = where(still[0])
+                problems.append(f"RainbowDQN.learn(per=True, combined_reward={cfg['combined']}, n_step={n}): changing "
+                                f"{what} at (step {cell[0]}, env {cell[1]}) inside the window of the sample starting at "
+                                f"(step {s}, env {e}) leaves its priority unchanged ({A['prios'][still[0]]:.6f}): the "
+                                f"n-step record is not what the loss is computed from")
+        elif abs(A["loss"] - V["loss"]) <= CONS_SAME and wdiff(V) <= CONS_SAME:
+            problems.append(f"RainbowDQN.learn(per=False, combined_reward={cfg['combined']}, n_step={n}): changing {what} "
+                            f"at (step {cell[0]}, env {cell[1]}) inside stored windows changes neither the loss nor the "
+                            f"update")
+    return problems, facts
+
+
+def consumer_probe_shape(cfg) -> tuple[bool, dict]:
+    """does learn(per=True) give the same priorities when the n-step batch is given the 1-step batch's shape?"""
+    raw = _cons_run(cfg, "A", flatten=False)
+    flat = _cons_run(cfg, "A", flatten=True)
+    same = all(_close(a, b) for a, b in zip(raw["prios"], flat["prios"]))
+    return same, {"n_step_batch_shape_as_sampled": raw["n_batch_shape"], "priorities_as_sampled": raw["prios"],
+                  "priorities_with_matching_batch_shape": flat["prios"], "case": cfg}
+
+
+def consumer_suite(chk: Check, learn_patch=None, runs: int | None = None, rng: random.Random | None = None) -> int:
+    """returns the number of cases with problems (also used by the self-test)"""
+    rng = rng or chk.rng
+    runs = runs or (24 if chk.tier == "quick" else 160)
+    threads = torch.get_num_threads()
+    torch.set_num_threads(1)
+    flatten, failing, reported = False, 0, False
+    try:
+        for i in range(runs):
+            per, combined = bool(i % 2), bool((i // 2) % 2)
+            cfg = consumer_config(rng, per, combined)
+            if per and not flatten and learn_patch is None:
+                same, detail = consumer_probe_shape(cfg)
+                if not same:
+                    flatten = True
+                    chk.finding("C10-per-nstep-index-shape",
+                                "with per=True the n-step batch comes back with an extra axis (indices of shape [B, 1] "
+                                f"-> n-step reward of shape {detail['n_step_batch_shape_as_sampled']}) and RainbowDQN."
+                                "_dqn_loss broadcasts it against the batch: every sample's n-step loss sums the n-step "
+                                "returns of ALL samples (priorities "
+                                f"{[round(x, 3) for x in detail['priorities_as_sampled'][:4]]} vs "
+                                f"{[round(x, 3) for x in detail['priorities_with_matching_batch_shape'][:4]]} with "
+                                "matching shapes); the remaining consumer checks run with matching shapes",
+                                {"case": cfg, "seed": cfg["seed"], "probe": "per-nstep-index-shape", **detail})
+                    chk.notes.append("consumer suite: per=True n-step batches reshaped to the 1-step batch shape "
+                                     "(finding C10-per-nstep-index-shape)")
+            try:
+                problems, facts = consumer_case(cfg, flatten=flatten and per, learn_patch=learn_patch)
+            except InfraError:
+                raise
+            except Exception as ex:
+                problems, facts = [f"RainbowDQN.learn raised {type(ex).__name__}: {ex}"[:300]], {}
+            if learn_patch is None:
+                chk.case(cfg, nontrivial=True,
+                         sample={"consumer": {k: cfg[k] for k in ("per", "combined", "n", "m", "tstar")},
+                                 "batch": facts.get("batch"), "loss": facts.get("loss")},
+                         tags=["consumer-per" if per else "consumer-uniform",
+                               "consumer-combined" if combined else "consumer-nstep-only", f"consumer-n={cfg['n']}"])
+            if problems:
+                failing += 1
+                if learn_patch is None and not reported:
+                    reported = True
+                    small = consumer_shrink(cfg, flatten and per)
+                    p2, f2 = consumer_case(small, flatten=flatten and per)
+                    chk.violation((p2 or problems)[0], consumer_replay_obj(small, p2 or problems, f2 or facts,
+                                                                           flatten and per))
+    finally:
+        torch.set_num_threads(threads)
+    if learn_patch is None:
+        chk.suite("rainbow-consumer", runs, 0)
+    return failing
+
+
+def consumer_shrink(cfg, flatten: bool):
+    def fails(c):
+        try:
+            return bool(consumer_case(c, flatten=flatten)[0])
+        except Exception:
+            return False
+    small = cfg
+    # fewer environments (env 0 carries the terminal step at t*)
+    while small["m"] > 1:
+        cand = dict(small, m=small["m"] - 1, steps=[row[:-1] for row in small["steps"]])
+        if not fails(cand):
+            break
+        small = cand
+    # shorter prefix
+    while small["tstar"] > max(2, small["n"] - 1):
+        cand = dict(small, tstar=small["tstar"] - 1, steps=small["steps"][1:])
+        if not fails(cand):
+            break
+        small = cand
+    # no other episode ends than the one at t*
+    cand = json.loads(json.dumps(small))
+    for t in range(cand["tstar"]):
+        for c in cand["steps"][t]:
+            c[1] = 0
+    if fails(cand):
+        small = cand
+    if small["cap_extra"] and fails(dict(small, cap_extra=0)):
+        small = dict(small, cap_extra=0)
+    return small
+
+
+def consumer_replay_obj(cfg, problems, facts, flatten: bool) -> dict:
+    return {"case": cfg, "seed": cfg["seed"], "oracle_problems": problems, "observed": facts,
+            "n_step_batch_reshaped": flatten,
+            "how": "steps[t][env] = [[reward numerator, denominator], done]; rows 0..tstar are stored as record starts, "
+                   "the n-1 rows behind tstar belong to the next episode; variants: A = as is, B = next_obs of every "
+                   "done cell and all rows behind tstar replaced, C = reward of (tstar, env 0) + 1, D = next_obs of a "
+                   "non-terminal last summed step replaced; real buffers + Sampler + RainbowDQN.learn on identically "
+                   "seeded agents (gamma 0.9, 9 atoms on [-6, 6], lr 1e-2, Adam eps 1e-3); prios = what learn() returns",
+            "suite": "harness/c10.py consumer suite (metamorphic, no model involved)"}
+
+
 # ----------------------------------------------------------------------------- source translation
 def pre_gate(chk: Check) -> None:
     """regenerate lean/Gen/NStepGen.lean from the source text of the tree under test and re-check
@@ -819,7 +1203,9 @@ def run(chk: Check) -> None:
                 "capacities m..4m+3 so that both storages wrap (also in the middle of a batch), uniform or prioritised "
                 "1-step buffer; distinct = distinct case description; non-trivial = some window was cut by an "
                 "episode end or the storages wrapped; plus real train_off_policy runs (RainbowDQN, scripted provenance "
-                "env, capacity 6..10, batch 3..4, uniform and PER) whose every learn() call is inspected")
+                "env, capacity 6..10, batch 3..4, uniform and PER) whose every learn() call is inspected; plus the consumer "
+                "suite: real buffers + Sampler + RainbowDQN.learn (per x combined_reward, n 2..4, 1..3 envs) under "
+                "metamorphic stream variants (post-terminal content must not matter, pre-terminal content must)")
     chk.assumptions = [
         "an episode end is what the buffer is told through `done`; train_off_policy passes only `terminated`, so "
         "time-limit truncations and the `env.reset()` between two agents of the population are invisible to the "
@@ -827,6 +1213,10 @@ def run(chk: Check) -> None:
         "both buffers are created with the same capacity (index alignment is false otherwise: "
         "C10_unequal_capacities_witness)",
         "rewards and discounts are dyadic, so float32 arithmetic is exact and compared with exact rationals",
+        "consumer suite: networks are seeded-perturbed initialisations on which the softmax clamp (min 1e-3) of the "
+        "distributional head is inactive; where it is active a masked bootstrap still leaks up to num_atoms*1e-3 "
+        "(relative) of the post-terminal observation into the loss and the tolerance is widened accordingly; Adam eps "
+        "is set to 1e-3 so that the weight update is a continuous function of the gradient",
     ]
     chk.trusted_extra.append("harness/py2lean_nstep.py (translator of MultiStepReplayBuffer.add / _get_n_step_info; its "
                              "output is proved equal to the model in Proofs/NStepGenEq.lean) and its fixed prelude: "
@@ -855,6 +1245,7 @@ def run(chk: Check) -> None:
     chk.suite("nstep-streams", len(cases), ndiff)
     chk.corr["model_lines"] += sum(len(c["steps"]) + 3 for c, _ in cases)
     loop_suite(chk)
+    consumer_suite(chk)
     if chk.tier == "thorough":
         selftest(chk)
 
@@ -916,6 +1307,22 @@ def selftest(chk: Check) -> None:
         res, _ = loop_case(chk, loop_config(lrng, per=per, tier="quick"), fault="lagging-main-buffer")
         caught["train-loop:lagging-main-buffer"] += res["bad_calls"] if any(
             "different (obs, action)" in p for p in res["problems"]) else 0
+    # consumer level: a learn() that masks the n-step target with the 1-step done flag, or that takes the n-step
+    # reward / next_obs from the 1-step batch, must be noticed by the metamorphic relations
+    def swapped(field):
+        def patch(agent):
+            orig = agent.learn
+
+            def learn(experiences, n_experiences=None, per=False):
+                if n_experiences is not None:
+                    n_experiences = n_experiences.clone()
+                    n_experiences[field] = experiences[field].reshape(n_experiences[field].shape).clone()
+                return orig(experiences, n_experiences=n_experiences, per=per)
+            return learn
+        return patch
+    for field in ("done", "reward", "next_obs"):
+        caught[f"consumer:n-step-{field}-from-1-step-batch"] = consumer_suite(
+            chk, learn_patch=swapped(field), runs=16, rng=random.Random(4242))
     blind = [v for v, c in caught.items() if c == 0]
     if blind:
         raise InfraError(f"C10 self-test: seeded faults not noticed: {blind}")
@@ -928,6 +1335,26 @@ def replay(chk: Check, path: str) -> int:
     c = json.loads(open(path).read())
     c = c.get("replay", c)
     case, seed = c.get("case", c), c.get("seed", 0)
+    if case.get("kind") == "consumer":
+        threads = torch.get_num_threads()
+        torch.set_num_threads(1)
+        try:
+            if c.get("probe") == "per-nstep-index-shape":
+                same, detail = consumer_probe_shape(case)
+                print(json.dumps({k: v for k, v in detail.items() if k != "case"}, indent=1))
+                if not same:
+                    print(f"VIOLATION property=C10 replay={path}")
+                    print("  -> learn(per=True) mixes the n-step returns of all samples (n-step batch has an extra axis)")
+                return 0 if same else 1
+            problems, facts = consumer_case(case, flatten=bool(c.get("n_step_batch_reshaped")))
+        finally:
+            torch.set_num_threads(threads)
+        print(json.dumps({"case": case, "observed": facts, "oracle_problems": problems}, indent=1, default=str))
+        if problems:
+            print(f"VIOLATION property=C10 replay={path}")
+            print(f"  -> {problems[0]}"[:700])
+            return 1
+        return 0
     if case.get("kind") == "train-loop":
         res, differs = loop_case(chk, case)
         print(json.dumps({k: v for k, v in loop_replay_obj(case, res).items() if k not in ("how", "correspondence")},
